@@ -13,19 +13,19 @@ COMMON_ASSUMPTIONS = [
 
 ARITH_RULE = ("all 506 layouts; operands: every value of the 8-bit layouts (all 65536 pairs), every value of the 16-bit layouts for unary "
               "operations, boundary alphabet B(w, frac) (powers of two and neighbours, limb/carry combinations, layout-relative values, "
-              "extremes; full square BxB for binary operations) otherwise; every form the API provides incl. by-reference and assigning "
+              "extremes; full square BxB for binary operations, plus related pairs (k*y + {-1,0,1}, y) in both orders for 12 factors k, plus, for unary operations, ties at every integer part of the alphabet) otherwise; every form the API provides incl. by-reference and assigning "
               "operators; a state is one (layout, operand tuple), a transition one executed call compared with exact integer arithmetic; "
               "non-trivial = at least one non-zero operand and at least one judged comparison")
 
 CROSS_RULE = ("ordered (source, destination) layout pairs through the public API: all 18x18 pairs of 8-bit layouts with every source value "
               "/ every value pair, and for each of the 100 ordered family pairs the boundary fractional-bit products (5x5 quick, 9x9 plus "
-              "all 8<->16-bit pairs thorough) with every value of 8/16-bit sources and the boundary alphabet otherwise; ")
+              "all 8<->16-bit pairs thorough) with every value of 8/16-bit sources and the boundary alphabet otherwise, plus relation-diagonal pairs through mid-range fractional-bit counts (equal fractional bits, equal integer bits, source integer + destination fractional bits = 128, 64 apart; each +-1); comparisons also on related pairs (the other layout's representation of the same number and its neighbours); ")
 PRIM_RULE = ("every compiled layout (90 quick: all 8-bit layouts + boundary fractional-bit counts; all 506 thorough) against i8..i128, "
              "isize, u8..u128, usize, bool, f32, f64 in both directions and both operand orders; integer values: all of 8/16-bit, "
              "boundary alphabet otherwise; floats: every exponent (f32; f64 thorough, quick: +-140 around the bias and the extremes) x "
-             "structured mantissas x both signs, incl. zeros, subnormals, largest finite binade, infinities, NaNs; ")
+             "structured mantissas x both signs, incl. zeros, subnormals, largest finite binade, infinities, NaNs; comparisons also against the floor of the value +-1 (integers) and the nearest float +-1, +-2 ulp; ")
 
-TRANS_RULE = """type pairs S->D: I9F23, I9F55, I16F48, I32F32, I41F23, I9F119, I40F88, I64F64, I96F32, I105F23 onto themselves, I9F23->{I32F32, I64F64, I9F55, I10F54, I96F32}, I32F32->I64F64, I16F48->I40F88, and for sqrt U9F23, U9F55, U32F32, U9F119, U64F64, U96F32, U105F23, U9F23->U64F64, U32F32->U96F32; operands: boundary alphabet, integers 0..300 and halves, neighbourhoods of 1 and 2, a grid of 2^g values per octave over the whole range of the type (g = 5 quick / 9 thorough; 3 / 7 for 128-bit sources), both signs; thorough: every one of the 2^32 bit patterns of I9F23 and U9F23; """
+TRANS_RULE = """type pairs S->D: I9F23, I9F55, I16F48, I32F32, I41F23, I9F119, I40F88, I64F64, I96F32, I105F23 onto themselves, I9F23->{I32F32, I64F64, I9F55, I10F54, I96F32}, I32F32->I64F64, I16F48->I40F88, and for sqrt U9F23, U9F55, U32F32, U9F119, U64F64, U96F32, U105F23, U9F23->U64F64, U32F32->U96F32; operands: boundary alphabet, integers 0..300 and halves, neighbourhoods of 1 and 2, the representable neighbours of 2^(k + j/8) in every octave (thorough j/32), a grid of 2^g values per octave over the whole range of the type (g = 5 quick / 9 thorough; 3 / 7 for 128-bit sources), both signs; thorough: every one of the 2^32 bit patterns of I9F23 and U9F23; """
 TRIG_RULE = ("types I9F23, I9F55, I16F48, I32F32, I41F23, I9F119, I40F88, I64F64, I96F32, I105F23; angles: every multiple of 2^-5 (thorough 2^-10) in [-200, 200] "
              "([-100, 100] for tan), boundary alphabet inside the range, the neighbourhood (0, +-1, +-2, +-100 ulp, +-2^-m for m = 1..24) of each multiple of pi/2 up "
              "to 130 pi/2; thorough: every I9F23 angle in the range (3.36e9 for sin and cos, 1.68e9 for tan); ")
@@ -107,9 +107,9 @@ PROPS = {
     "C10": {
         "title": "SCALE encoding and byte views are the plain little-endian bits of the value",
         "stages": [{"driver": "bytes"}],
-        "rule": ("all 506 layouts x every bit pattern of the 8/16-bit layouts, boundary alphabet plus byte-position patterns otherwise; per value 23..38 "
+        "rule": ("all 506 layouts x every bit pattern of the 8/16-bit layouts, boundary alphabet plus byte-position patterns otherwise; per value 40..60 "
                  "sub-checks: encode / encode_to / encoded_size / max_encoded_len against the little-endian bytes of the pattern and the underlying "
-                 "integer's own SCALE encoding, decode round trip, decode with trailing bytes consumes exactly width/8, decode of every proper prefix fails, "
+                 "integer's own SCALE encoding, decode round trip, decode with trailing bytes consumes exactly width/8, decode of every proper prefix fails, the same through streaming inputs (remaining_len unknown / known), decode_all, the value inside tuples and Vecs, "
                  "to_/from_{le,be,ne}_bytes, to_/from_bits, Wrapping::{from_bits,to_bits}, serde_json text of Fixed and Wrapping<Fixed> = {\"bits\":n} and back "
                  "(map and sequence form); a state is one (layout, bit pattern), a transition one sub-check; non-trivial = pattern not zero"),
         "assumptions": ["parity-scale-codec's encoding of primitive integers and serde_json are the reference for 'the encoding of the underlying integer' and the {bits} representation", "the subject is built with its optional `serde` feature for this check only"],
@@ -122,7 +122,7 @@ PROPS = {
                  "token alphabets for the 90 boundary layouts, (b) for every layout the neighbourhood of representable values and rounding ties (all of "
                  "them for 8-bit layouts, a boundary set otherwise): exact expansion, every prefix class, last digit +-1, a hair above/below the tie at "
                  "every total digit count around the parser's fast-path budgets, ...999 / ...0001 continuations, leading zeros, signs, integer parts at and "
-                 "far beyond the range, (c) a list of malformed and extreme strings (10000 digits, non-ASCII, NUL); a state is one (layout, radix, string), a "
+                 "far beyond the range, in-range values plus multiples of 2^n / radix^k of every parsing word (only the last k digits determine the wrapped value), 54- and 28-digit decimal fractions on either side of the limb carry of the two-word decimal path, (c) a list of malformed and extreme strings (10000 digits, non-ASCII, NUL); a state is one (layout, radix, string), a "
                  "transition one parse call compared with exact rational rounding; non-trivial = the string is a well-formed literal"),
         "assumptions": ["for a malformed string any error other than the overflow error is accepted (the property does not fix precedence among malformed kinds)"],
     },
@@ -133,7 +133,7 @@ PROPS = {
         "rule": ("all 506 layouts: every value of the 8-bit layouts (thorough: 16-bit too), boundary alphabet and values next to round decimals otherwise x "
                  "{Display, Debug, Binary, Octal, LowerHex, UpperHex} x 16 precisions (none, 0..200): digits compared with the exact expansion rounded half-even "
                  "at the number of digits printed, exactness for power-of-two radices, Display -> FromStr round trip; and for a fixed value set per layout the "
-                 "full product of 6 traits x {+} x {#} x {0} x 7 alignment/fill x 6 widths x 3 precisions against the padding rule pad(sign ++ prefix ++ body); "
+                 "full product of 6 traits x {+} x {#} x {0} x 7 alignment/fill x 6 widths x 3 precisions against the padding rule pad(sign ++ prefix ++ body), and three specs per trait written into sinks that refuse after k bytes (no unwinding); "
                  "a state is one (layout, value, format spec), a transition one formatting (or parse-back) call; non-trivial = value not zero"),
         "assumptions": ["the padding rule is that of core::fmt::Formatter::pad_integral (sign, then prefix, zero flag pads after the prefix and overrides fill/alignment, default right alignment)"],
     },
